@@ -260,6 +260,19 @@ func c16Run(c *fw.Ctx) {
 		for i := 0; i <= len(v); i++ {
 			c16Parse(c, v[:i], "prefix")
 		}
+		// the same bytes through a reader that delivers one byte per Read
+		if cont, err := util.NewTLV8ContainerFromReader(&oneByteReader{append([]byte{}, v...)}); err != nil {
+			c.Report("parse/short-reads/error", "a valid encoding delivered one byte per Read is rejected: "+err.Error(), c16Case{Kind: "parse", Input: v, Sub: "one-byte-reader"})
+		} else {
+			ref, _ := refctl.TLVConcat(v)
+			for t := 0; t < 256; t++ {
+				if !bytes.Equal(cont.GetBytes(byte(t)), ref[byte(t)]) {
+					c.Report("parse/short-reads/value", fmt.Sprintf("tag %d differs when the input is delivered one byte per Read", t), c16Case{Kind: "parse", Input: v, Sub: "one-byte-reader"})
+					break
+				}
+			}
+		}
+		c.Eval(1)
 		for i := 0; i < len(v); i++ {
 			for _, sub := range []byte{0, 1, 254, 255, v[i] ^ 0x80} {
 				e := append([]byte{}, v...)
